@@ -92,11 +92,50 @@ def reference_bin(an, r, j):
     return K.close(got, ref, case, an.iscsd, mult=4.0), got, ref
 
 
+def single_bin_correspondence(ck):
+    """Segmentation of compute_single_bin vs SingleBin.sb_starts / segL_of_fres at binary64 (bit-exact)."""
+    from speckit.analysis import SpectrumAnalyzer
+    from ..common import fhex
+    terms, exp = [], []
+    n = 30 if ck.tier == "quick" else 300
+    for _ in range(n):
+        N = ck.rng.choice([64, 100, 257, 1000]); fs = ck.rng.choice([1.0, 2.0, 100.0])
+        olap = ck.rng.choice([0.0, 0.5, 0.75, 0.9, ck.rng.random() * 0.95])
+        an = SpectrumAnalyzer(np.zeros(N), fs, olap=olap, win="hann", order=-1)
+        if ck.rng.random() < 0.5:
+            L = ck.rng.choice([1, 2, N, N - 1, N // 2, ck.rng.randint(1, N)])
+            r = an.compute_single_bin(fs / 8, L=L)
+            terms.append("Eval vm_compute in (%d, sb_starts FloatA %d %d %s)." % (L, N, L, fhex(olap)))
+        else:
+            fres = fs / ck.rng.uniform(0.3, N)
+            try:
+                r = an.compute_single_bin(fs / 8, fres=fres)
+            except ValueError:
+                continue
+            terms.append("Eval vm_compute in (let L := segL_of_fres FloatA %s %s in (L, sb_starts FloatA %d L %s))." % (fhex(fs), fhex(fres), N, fhex(olap)))
+        exp.append((N, int(r._data["L"][0]), [int(v) for v in np.asarray(r._data["D"][0]).ravel()], int(r._data["K"][0]), olap))
+    body = "From Coq Require Import ZArith List PrimFloat.\nFrom SK Require Import Arith SingleBin.\nImport ListNotations.\nOpen Scope Z_scope.\nOpen Scope float_scope.\n" + "\n".join(terms) + "\n"
+    res = common.run_case_files({"sbin_%d" % __import__("os").getpid(): body})
+    rc, out = list(res.values())[0]
+    evs = common.parse_evals(out)
+    bad = []
+    if rc != 0 or len(evs) != len(exp):
+        bad.append("coq evaluation failed: " + out[-300:])
+    else:
+        for ev, (N, L, D, K, olap) in zip(evs, exp):
+            t = [int(v) for v in common.tokens(ev)]
+            if t[0] != L or t[1:] != D or K != len(D):
+                bad.append("N=%d olap=%r: implementation L=%d K=%d D=%s..., model L=%d D=%s..." % (N, olap, L, K, D[:4], t[0], t[1:5]))
+    ck.obligation("correspondence:compute_single_bin segmentation == SingleBin.sb_starts / segL_of_fres at binary64 (bit-exact)", not bad, "; ".join(bad[:3]))
+    ck.cov["single_bin_segmentations"] = len(exp)
+
+
 def run(ck):
     from speckit.analysis import SpectrumAnalyzer
     r = translate_dispatch.regen()
     ck.obligation("translate:T3 dispatch of _lpsd_core / compute_single_bin -> gen/DispatchGen.v", r["ok"], r["error"] or "")
-    ck.build_theorems("Properties/C05.v", deps=["Dispatch.vo", "Hist.vo", "gen/DispatchGen.vo"])
+    ck.build_theorems("Properties/C05.v", deps=["Dispatch.vo", "Hist.vo", "SingleBin.vo", "gen/DispatchGen.vo"])
+    single_bin_correspondence(ck)
     n = 14 if ck.tier == "quick" else 200
     corr_bad, nb, dist = [], 0, {}
     for i in range(n):
